@@ -172,5 +172,8 @@ IStep(m, B, jt, ar, P, v) ==
                            ELSE IBranch([m1 EXCEPT !.vs = Pop(@)], B, jt, P, ar, i, BrTableDepth(c, Top(m1.vs)))
       [] o = "return"      -> IReturn(m1, P, ar)
       [] o = "unreachable" -> Trap(EmitP(m1, Fire(P, "func_exit", -1)))
+      [] o = "throw"       -> Trap(EmitP(m1, Fire(P, "func_exit", -1)))
+      \* the activation is left AT the tail call: the exit probe fires before the callee runs, once
+      [] o = "rcall"       -> Return(Emit(EmitP(m1, Fire(P, "func_exit", -1)), [e |-> "op", k |-> c.k]), ar)
       [] OTHER -> Stuck(m1)
 =============================================================================
